@@ -128,12 +128,71 @@ func (s *scn) idPool() []string {
 	return p
 }
 
+// templates: argument vectors that pass the entry checks of the multi-argument governance operations, so that a
+// single perturbed argument reaches the code behind those checks (a uniformly random vector almost never does).
+func (s *scn) templates(r *sim.Rand) map[string][]*pb.Arg {
+	u := fmt.Sprint(r.Intn(10000))
+	c := s.chains[r.Intn(len(s.chains))]
+	sv := c.services[r.Intn(len(c.services))]
+	fresh := keyFor("tmpl-" + u).Addr.String()
+	S, U, B := pb.String, pb.Uint64, pb.Bytes
+	prop := ""
+	if len(s.proposals) > 0 {
+		prop = s.proposals[len(s.proposals)-1-r.Intn(min(len(s.proposals), 4))]
+	}
+	return map[string][]*pb.Arg{
+		"AppchainManager.RegisterAppchain":   {S("chain" + u), S("name" + u), B(nil), S("ETH"), B(nil), S("broker"), S("desc"), S(happyRule), S("url"), S(fresh), S("reason")},
+		"AppchainManager.UpdateAppchain":     {S(c.id), S("name-" + c.id + u), S("desc2"), B(nil), S(c.admin.Addr.String()), S("reason")},
+		"ServiceManager.RegisterService":     {S(c.id), S("svc" + u), S("nm" + u), S("CallContract"), S("intro"), U(1), S(""), S("details"), S("reason")},
+		"ServiceManager.UpdateService":       {S(c.id + ":" + sv.id), S("nm-" + c.id + sv.id + u), S("intro2"), S(""), S("details2"), S("reason")},
+		"ServiceManager.EvaluateService":     {S(c.id + ":" + sv.id), S("fine"), {Type: pb.Arg_F64, Value: []byte("4.5")}},
+		"DappManager.RegisterDapp":           {S("dapp" + u), S("tool"), S("desc"), S("http://dapp" + u), S(fresh), S(""), S("reason")},
+		"DappManager.TransferDapp":           {S(fresh + "-0"), S(s.users[0].Addr.String()), S("reason")},
+		"RuleManager.RegisterRule":           {S(c.id), S(happyRule), S("url")},
+		"RuleManager.UpdateMasterRule":       {S(c.id), S(happyRule), S("reason")},
+		"RuleManager.LogoutRule":             {S(c.id), S(happyRule)},
+		"RoleManager.RegisterRole":           {S(fresh), S("governanceAdmin"), S(""), S("reason")},
+		"NodeManager.RegisterNode":           {S(fresh), S("vpNode"), S("QmPid" + u), U(uint64(5 + r.Intn(3))), S("node" + u), S(""), S("reason")},
+		"GovStrategy.UpdateProposalStrategy": {S("service_mgr"), S("SimpleMajority"), S("a >= 1"), S("reason")},
+		"Governance.Vote":                    {S(prop), S("approve"), S("reason")},
+		"Governance.WithdrawProposal":        {S(prop), S("reason")},
+	}
+}
+
+// nearMiss: values that pass a superficial check but not the one behind it
+var nearMiss = []string{"0x1234", "0x", "1234", "0x00000000000000000000000000000000000000a", "00000000000000000000000000000000000000a1", "0x00000000000000000000000000000000000000zz",
+	"tool", "Tool", "CallContract", "Fabric V1.4.3", "relaychain", "a > t", "a >= 0.5 * t", ",", ",,", "0x0000000000000000000000000000000000000000", " "}
+
 // typedArgs draws one argument vector matching the method's signature; types that cannot be
 // expressed as a transaction argument get a string (the call then fails inside dispatch).
 func (s *scn) typedArgs(r *sim.Rand, mi methodInfo) ([]*pb.Arg, string) {
 	pool := s.idPool()
 	var args []*pb.Arg
 	var desc []string
+	if tmpl, ok := s.templates(r)[mi.contract+"."+mi.name]; ok && len(tmpl) == len(mi.in) && r.Chance(0.7) {
+		what := "valid"
+		if r.Chance(0.75) {
+			i := r.Intn(len(tmpl))
+			if tmpl[i].Type == pb.Arg_String {
+				v := nearMiss[r.Intn(len(nearMiss))]
+				if r.Chance(0.5) {
+					v = pool[r.Intn(len(pool))]
+				}
+				tmpl[i] = pb.String(v)
+				what = fmt.Sprintf("arg%d=%q", i, v)
+			} else if tmpl[i].Type == pb.Arg_U64 {
+				v := []uint64{0, 1, 2, 1 << 63, ^uint64(0)}[r.Intn(5)]
+				tmpl[i] = pb.Uint64(v)
+				what = fmt.Sprintf("arg%d=%d", i, v)
+			} else {
+				v := r.Bytes(r.Intn(40))
+				tmpl[i] = pb.Bytes(v)
+				what = fmt.Sprintf("arg%d=0x%x", i, v[:min(len(v), 8)])
+			}
+		}
+		s.res.Count("probe_template_call")
+		return tmpl, "template/" + what
+	}
 	n := len(mi.in)
 	if r.Chance(0.08) {
 		n = r.Intn(n + 2) // wrong argument count
@@ -231,6 +290,19 @@ func (s *scn) applyCall(st CStep) {
 	}
 	mi := c[((st.N%len(c))+len(c))%len(c)]
 	r := sim.NewRand(uint64(st.A)*1000003 + uint64(st.B))
+	if st.B%3 == 0 {
+		// a third of the calls go to the operations that have a template (see templates)
+		var tm []methodInfo
+		names := s.templates(sim.NewRand(1))
+		for _, m := range ms {
+			if _, ok := names[m.contract+"."+m.name]; ok {
+				tm = append(tm, m)
+			}
+		}
+		if len(tm) > 0 {
+			mi = tm[((st.N%len(tm))+len(tm))%len(tm)]
+		}
+	}
 	args, desc := s.typedArgs(r, mi)
 	chain := s.chains[st.A%len(s.chains)]
 	role := st.Role
